@@ -168,7 +168,7 @@ pub fn child(p: &Params) {
 // parent: input generation
 
 const EXTREME: [&str; 14] = ["0", "-1", "-0", "99999999999", "18446744073709551615", "18446744073709551616", "-9223372036854775808", "9223372036854775807", "1e308", "1.5", "-99999999999999999999999", "null", "true", "\"5\""];
-const TEMPIDS: [&str; 16] = ["\"!A0\"", "\"!A99999999999\"", "\"!D99999999999\"", "\"!R7\"", "\"!A-1\"", "\"!A18446744073709551615\"", "\"!K3\"", "\"!\"", "\"!É1\"", "\"!Ω2\"", "\"!😀0\"", "\"!A\"", "\"!AÉ\"", "\"!A1É\"", "\"!é\"", "\"!!A1\""];
+const TEMPIDS: [&str; 28] = ["\"!D0\"", "\"!D1\"", "\"!D2\"", "\"!D3\"", "\"!A1\"", "\"!A2\"", "\"!A3\"", "\"!K0\"", "\"!K1\"", "\"!R0\"", "\"!R1\"", "\"!S0\"", "\"!A0\"", "\"!A99999999999\"", "\"!D99999999999\"", "\"!R7\"", "\"!A-1\"", "\"!A18446744073709551615\"", "\"!K3\"", "\"!\"", "\"!É1\"", "\"!Ω2\"", "\"!😀0\"", "\"!A\"", "\"!AÉ\"", "\"!A1É\"", "\"!é\"", "\"!!A1\""];
 const TYPES: [&str; 13] = ["InternalRangedSelector", "TextSelector", "AnnotationSelector", "ResourceSelector", "DataSetSelector", "DataKeySelector", "AnnotationDataSelector", "MultiSelector", "CompositeSelector", "DirectionalSelector", "Annotation", "AnnotationData", "BeginAlignedCursor"];
 
 /// line based edits of a pretty-printed JSON document (keeps the order of fields, which matters to the reader)
@@ -246,6 +246,45 @@ fn graft_complex(rng: &mut Rng, text: &str) -> Option<(String, String)> {
     Some((out, format!("graft-complex/{}[{}]", complex, kinds.join("+"))))
 }
 
+/// A data *reference* inside an annotation (`{"@type": "AnnotationData", "@id": .., "set": ..}`) becomes an inline *definition*
+/// (key and value given), under an id that is absent, fresh, already taken, or a temporary id of a live or of a vacated slot.
+fn inline_data(rng: &mut Rng, text: &str) -> Option<(String, String)> {
+    let mut lines: Vec<String> = text.lines().map(|s| s.to_string()).collect();
+    let refs: Vec<usize> = (1..lines.len()).filter(|k| lines[*k].trim_start().starts_with("\"set\":") && lines[*k - 1].trim_start().starts_with("\"@id\":")).collect();
+    let keys: Vec<String> = (1..lines.len())
+        .filter(|k| lines[*k - 1].contains("\"@type\": \"DataKey\"") && lines[*k].trim_start().starts_with("\"@id\":"))
+        .filter_map(|k| lines[k].split('"').nth(3).map(|x| x.to_string()))
+        .collect();
+    if refs.is_empty() || keys.is_empty() {
+        return None;
+    }
+    let k = *rng.pick(&refs);
+    let indent: String = lines[k].chars().take_while(|c| c.is_whitespace()).collect();
+    let present: Vec<usize> = text.match_indices("\"!D").filter_map(|(i, _)| text[i + 3..].split('"').next().and_then(|n| n.parse().ok())).filter(|n: &usize| *n < 256).collect();
+    let max = present.iter().max().copied().unwrap_or(0);
+    let missing: Vec<usize> = (0..max).filter(|n| !present.contains(n)).collect();
+    let (name, id): (&str, Option<String>) = match rng.below(6) {
+        0 => ("no-id", None),
+        1 => ("fresh-id", Some("inline-fresh".into())),
+        2 if !missing.is_empty() => ("temp-id-of-vacated-slot", Some(format!("!D{}", rng.pick(&missing)))),
+        3 if !present.is_empty() => ("temp-id-of-live-item", Some(format!("!D{}", rng.pick(&present)))),
+        4 => ("temp-id-beyond", Some(format!("!D{}", max + 1 + rng.below(3)))),
+        _ => ("same-id", lines[k - 1].split('"').nth(3).map(|x| x.to_string())),
+    };
+    match id {
+        Some(id) => lines[k - 1] = format!("{}\"@id\": {},", indent, serde_json::to_string(&id).ok()?),
+        None => {
+            lines.remove(k - 1);
+        }
+    }
+    let k = if name == "no-id" { k - 1 } else { k };
+    let set_line = lines[k].trim_end().trim_end_matches(',').to_string();
+    lines[k] = format!("{},", set_line);
+    lines.insert(k + 1, format!("{}\"key\": {},", indent, serde_json::to_string(rng.pick(&keys)).ok()?));
+    lines.insert(k + 2, format!("{}\"value\": {{ \"@type\": \"String\", \"value\": \"inline\" }}", indent));
+    Some((lines.join("\n"), format!("inline-data/{}", name)))
+}
+
 fn mutate_json(rng: &mut Rng, text: &str) -> (String, String) {
     let mut lines: Vec<String> = text.lines().map(|s| s.to_string()).collect();
     if lines.is_empty() {
@@ -304,8 +343,23 @@ fn mutate_json(rng: &mut Rng, text: &str) -> (String, String) {
             let Some((head, _)) = lines[k].split_once(':') else { return (text.to_string(), "none".into()) };
             let head = head.to_string();
             let comma = if lines[k].trim_end().ends_with(',') { "," } else { "" };
-            lines[k] = format!("{}: {}{}", head, rng.pick(&TEMPIDS[..]), comma);
-            "temporary-id"
+            // half of the time a temporary id that is NOT in the document but lies below one that is: after removals that is the
+            // number of a vacated slot
+            let mut gap: Option<String> = None;
+            if rng.chance(1, 2) {
+                let letter = *rng.pick(&['D', 'A', 'K']);
+                let pat = format!("\"!{}", letter);
+                let present: Vec<usize> = text.match_indices(&pat).filter_map(|(i, _)| text[i + pat.len()..].split('"').next().and_then(|n| n.parse().ok())).filter(|n: &usize| *n < 256).collect();
+                if let Some(max) = present.iter().max() {
+                    let missing: Vec<usize> = (0..*max).filter(|n| !present.contains(n)).collect();
+                    if !missing.is_empty() {
+                        gap = Some(format!("\"!{}{}\"", letter, rng.pick(&missing)));
+                    }
+                }
+            }
+            let is_gap = gap.is_some();
+            lines[k] = format!("{}: {}{}", head, gap.unwrap_or_else(|| rng.pick(&TEMPIDS[..]).to_string()), comma);
+            if is_gap { "temporary-id-of-a-vacated-slot" } else { "temporary-id" }
         }
         6 => {
             // swap a @type
@@ -542,6 +596,13 @@ fn gen_inputs(p: &Params, rng: &mut Rng, k: u64, out: &mut Vec<Input>) {
             let mut f = BTreeMap::new();
             f.insert("s.store.stam.json".to_string(), m);
             out.push(Input { kind: if rng.chance(1, 6) { "json-store-file".into() } else { "json-store".into() }, mutation: name, files: f, main: "s.store.stam.json".into() });
+        }
+        for _ in 0..2 {
+            if let Some((m, name)) = inline_data(rng, &text) {
+                let mut f = BTreeMap::new();
+                f.insert("s.store.stam.json".to_string(), m);
+                out.push(Input { kind: "json-store".into(), mutation: name, files: f, main: "s.store.stam.json".into() });
+            }
         }
         for _ in 0..2 {
             if let Some((m, name)) = graft_complex(rng, &text) {
